@@ -17,12 +17,12 @@ Definition irel (n : node) (x : inode) : Prop :=
 Definition hrel2 (h : hnd) (x : phandle) : Prop :=
   href h = pino x /\ hat h = Z.of_nat (ppos x) /\ hrdc h = Z.of_nat (prdc x) /\ hclosed h = pclosed x /\ hro h = pro x.
 
-Definition tree_rel (s : mst) (t : pstate) : Prop := forall k, lookup s k = plookup t k.
-Definition heap_rel (s : mst) (t : pstate) : Prop :=
+Definition tree_rel (s : mst) (t : pfs) : Prop := forall k, lookup s k = plookup t k.
+Definition heap_rel (s : mst) (t : pfs) : Prop :=
   length (mheap s) = length (pinodes t) /\
   forall r n, get_node s r = Some n -> exists x, pinode t r = Some x /\ irel n x.
 
-Record Rsim (s : mst) (t : pstate) : Prop := mkRsim {
+Record Rsim (s : mst) (t : pfs) : Prop := mkRsim {
   rs_wf : WF s;
   rs_tree : tree_rel s t;
   rs_nodup : NoDup (map fst (ptree t));
@@ -194,7 +194,7 @@ Proof.
   - now rewrite Hn.
 Qed.
 
-Definition sim_raw (s : mst) (t : pstate) (o : op) : Prop :=
+Definition sim_raw (s : mst) (t : pfs) (o : op) : Prop :=
   Rsim (fst (m_step_raw s o)) (fst (p_step t o)) /\ mproj o (snd (m_step_raw s o)) = snd (p_step t o).
 
 (* ---------- Mkdir ---------- *)
@@ -851,7 +851,7 @@ Definition conv (r : ByteFile.pres) : pout :=
   | PNone => PNoSlot
   | POk => PSucc
   | PErr c => PFail (if Nat.eqb c C_CLOSED then CClosed else COther)
-  | ByteFile.PBytes b e => PBytes b e
+  | ByteFile.PBytes b e => PData b e
   | PCount n => PNum n
   | PPos n => PNum n
   | PSize _ => PSucc
@@ -1264,7 +1264,7 @@ Definition obs_agree (a : option (bool * bytes * Z)) (b : option (bool * bytes *
   | _, _ => False
   end.
 
-Record Observe (s : mst) (t : pstate) : Prop := mkObserve {
+Record Observe (s : mst) (t : pfs) : Prop := mkObserve {
   ob_tree : forall k, obs_agree (mentry s k) (pentry t k);
   ob_list : forall d r n, lookup s d = Some r -> get_node s r = Some n -> ndir n = true -> dir_names s n = plisting t d
 }.
